@@ -231,7 +231,7 @@ func (st *State) callSSA(caller *frame, pos token.Pos, fn *ssa.Function, args []
 	if st.eng.trace {
 		fmt.Printf("%*scall %s\n", st.depth(caller), "", name)
 	}
-	if meta.stub != nil {
+	if meta.stub != nil && !st.eng.cfg.NoStubs {
 		return st.callFunc(caller, pos, meta.stub, args)
 	}
 	if meta.intr != nil {
